@@ -205,6 +205,15 @@ type SVStruct struct {
 
 func (SVStruct) SafeValue() {}
 
+// SafeValue-marked slice and map types (nil values print as "(nil)" in Go syntax)
+type SVSlice []string
+
+func (SVSlice) SafeValue() {}
+
+type SVMap map[string]int
+
+func (SVMap) SafeValue() {}
+
 // ---- registrable pool (RegisterSafeType configurations) ---------------
 
 type RegStr string
@@ -214,6 +223,7 @@ type RegStruct struct {
 	B int
 }
 type RegStringer string
+type RegSlice []int
 
 func (r RegStringer) String() string { return "R<" + string(r) + ">" }
 
